@@ -537,7 +537,10 @@ func (h *handler1) handleConnect(ctx context.Context, snConnect *snPkts1.Connect
 		return h.snSend(reply)
 	}
 
-	if h.state.Get() == util.StateAwake {
+	// CONNECT of a sleeping (asleep or awake) client only signalizes its
+	// transition to the active state, it does not start a new connection.
+	// See doc/specification-interpretation.md.
+	if state := h.state.Get(); state == util.StateAwake || state == util.StateAsleep {
 		h.setState(util.StateActive)
 		reply := snPkts1.NewConnack(snPkts1.RC_ACCEPTED)
 		return h.snSend(reply)
@@ -805,7 +808,13 @@ func (h *handler1) handleMqttSn(ctx context.Context, pkt snPkts.Packet) error {
 				}
 			}
 			h.pktBuffer = nil
-			return h.snSend(snPkts1.NewPingresp())
+			if err := h.snSend(snPkts1.NewPingresp()); err != nil {
+				return err
+			}
+			// PINGRESP ends the awake period: the client is asleep again
+			// (MQTT-SN specification v. 1.2, chapter 6.14).
+			h.setState(util.StateAsleep)
+			return nil
 		} else {
 			mqPkt := mqPkts.NewControlPacket(mqPkts.Pingreq).(*mqPkts.PingreqPacket)
 			return h.mqttSend(mqPkt)
